@@ -34,6 +34,8 @@ C11_Pure ==
   /\ Check("repeated runs differ (non-determinism)", \A i \in 1..Len(T.repeats) : Same(T.repeats[i], T.seq))
   /\ Check("repeated runs on a store that answers exactly what is asked differ (non-determinism)",
            ("repeats_exact" \in DOMAIN T) => \A i \in 1..Len(T.repeats_exact) : Same(T.repeats_exact[i], T.repeats_exact[1]))
+  /\ Check("repeated runs with two unreadable variables report different errors (the caller's map order decides)",
+           ("repeats_bad" \in DOMAIN T) => \A i \in 1..Len(T.repeats_bad) : Same(T.repeats_bad[i], T.repeats_bad[1]))
   /\ Check("a feature flag changed a result it does not gate", ~T.flags.gated => Same(T.flags.on, T.flags.off))
   /\ Check("interleaved runs interfere: a result differs from the run executed alone",
            \A i \in 1..Len(T.gated) : \A j \in 1..Len(T.gated[i].outs) : Same(T.gated[i].outs[j], T.seq))
